@@ -171,13 +171,32 @@ Adv(rq) ==      \* look hop k up now; walk on while hops are live
                                      !.pend  = Append(@, NoPend)])
        ELSE [rq EXCEPT !.st = "down"]
 
+(* a lookup that finds an expired entry removes it (PositiveCache.Get)       *)
+Reap(a, h) == IF a[h].id # 0 /\ ~LiveE(a[h]) THEN [a EXCEPT ![h] = NoneE] ELSE a
+
+(* Cache.additionalAnswer, outer loop: when the failed level is the third or  *)
+(* deeper, the level above it still returned its alias, so the level two up   *)
+(* asks for the final target itself once more -- in a fresh fork of ITS meta. *)
+(* The downstream that did not answer does not answer the retry either, but   *)
+(* the retry's cache lookup may hit an entry stored meanwhile: that piece      *)
+(* binds levels k-2 and up, not the alias at level k-1 beside it (lvl = k-1). *)
+ASSUME ChainShort == Len(Chain) <= 3      \* so a retried hop is always the terminal one
+Retries(rq, failed) == failed /\ rq.k >= 3
+RetryPiece(rq, failed, a) ==
+  LET h == PathOf(rq.q, rq.route)[rq.k] IN
+  IF Retries(rq, failed) /\ a[h].id # 0 /\ now < Expiry(a[h])
+    THEN {[key |-> h, id |-> a[h].id, shown |-> Expiry(a[h]) - now, exp |-> Expiry(a[h]), lvl |-> rq.k - 1]}
+    ELSE {}
+
 (* the request-tree cut as seen from level l once the walk has ended at      *)
 (* level m = rq.k: a failed deepest level is not inherited                   *)
-RECURSIVE CutAt(_, _, _)
-CutAt(rq, l, failed) ==
-  IF l = rq.k THEN rq.metas[l]
-  ELSE IF l + 1 = rq.k /\ failed THEN rq.metas[l]
-  ELSE Min2(rq.metas[l], CutAt(rq, l + 1, failed))
+RECURSIVE CutAt(_, _, _, _)
+CutAt(rq, l, failed, rp) ==
+  LET own == IF l = rq.k - 2 /\ rp # {} THEN Min2(rq.metas[l], (CHOOSE p \in rp : TRUE).exp)
+             ELSE rq.metas[l]
+  IN IF l = rq.k THEN own
+     ELSE IF l + 1 = rq.k /\ failed THEN own
+     ELSE Min2(own, CutAt(rq, l + 1, failed, rp))
 
 Pending(rq, l, failed) == rq.pend[l].id # 0 /\ ~(l = rq.k /\ failed)
 
@@ -186,26 +205,26 @@ Pending(rq, l, failed) == rq.pend[l].id # 0 /\ ~(l = rq.k /\ failed)
 Finish(r, rq, failed, ansBase) ==
   LET pth  == PathOf(rq.q, rq.route)
       lvls == 1..rq.k
+      rp   == RetryPiece(rq, failed, ansBase)
       newE(l) == NewEntry(rq.pend[l].id, rq.pend[l].raw, rq.pend[l].aux,
-                          CutAt(rq, l, failed), pth[l])
+                          CutAt(rq, l, failed, rp), pth[l])
       effLeases == {L \in rq.leases : ~(failed /\ L.lvl = rq.k)}
   IN /\ ans' = [h \in Keys |->
                   IF \E l \in lvls : pth[l] = h /\ Pending(rq, l, failed)
                     THEN newE(CHOOSE l \in lvls : pth[l] = h /\ Pending(rq, l, failed))
+                    ELSE IF Retries(rq, failed) /\ h = pth[rq.k] THEN Reap(ansBase, h)[h]
                     ELSE ansBase[h]]
      /\ req' = [req EXCEPT ![r] = IdleReq]
      /\ reply' = [kind |-> "reply", r |-> r, q |-> rq.q, route |-> rq.route,
                   answered |-> ~(rq.k = 1 /\ failed),
-                  pieces |-> rq.pieces,
+                  pieces |-> rq.pieces \cup rp,
                   stored |-> {[key |-> pth[l], id |-> rq.pend[l].id,
                                exp |-> Expiry(newE(l)), lvl |-> l] :
                               l \in {x \in lvls : Pending(rq, x, failed)}},
                   leases |-> effLeases,
-                  rootcut |-> CutAt(rq, 1, failed)]
-     /\ lastShown' = Shown(rq.pieces)
+                  rootcut |-> CutAt(rq, 1, failed, rp)]
+     /\ lastShown' = Shown(rq.pieces \cup rp)
 
-(* a lookup that finds an expired entry removes it (PositiveCache.Get)       *)
-Reap(a, h) == IF a[h].id # 0 /\ ~LiveE(a[h]) THEN [a EXCEPT ![h] = NoneE] ELSE a
 
 Start(r, q, route) ==
   /\ req[r].st = "idle"
@@ -281,6 +300,7 @@ SubQueryWrite(q, raw, aux, d) ==
 
 (* ---- RFC 8020 subtree cut and RFC 8198 proof RRsets: timed entries ------ *)
 CutWrite(raw, aux, d) ==
+  /\ CutMax > 0
   /\ LET t == BareTTL(raw, aux, IF d = NoAux THEN NoCut ELSE now + d)
      IN scut' = IF t > 0 THEN [id |-> nextId, expires |-> now + t] ELSE scut
   /\ nextId' = nextId + 1
@@ -288,6 +308,7 @@ CutWrite(raw, aux, d) ==
   /\ UNCHANGED <<now, ans, proof, req, pf, lastShown, dvars>>
 
 ProofWrite(rawS, rawN, d) ==
+  /\ CutMax > 0
   /\ LET c  == IF d = NoAux THEN NoCut ELSE now + d
          tS == BareTTL(rawS, NoAux, c)
          tN == BareTTL(rawN, NoAux, c)
@@ -310,7 +331,7 @@ Synth(kind, route, pcs, cutv) ==
 (* a name below the denied name, no exact entry: handleNXDomainCutHit /      *)
 (* serveCutHitFromWire / GetWithContext; an expired cut is removed           *)
 HitCut(route) ==
-  /\ route \in Routes \cup {"get"}
+  /\ CutMax > 0 /\ route \in Routes \cup {"get"}
   /\ IF LiveC(scut)
        THEN /\ Synth("cut", route, {[key |-> "cut", id |-> scut.id, shown |-> scut.expires - now,
                                     exp |-> scut.expires, lvl |-> 1]}, scut.expires)
@@ -322,7 +343,7 @@ HitCut(route) ==
 (* a name the NSEC covers: the synthesised denial lives while BOTH RRsets    *)
 (* live and shows the smaller remaining lifetime on every record             *)
 HitDenial(route) ==
-  /\ route \in (Routes \ {"wire"}) \cup {"get"}
+  /\ CutMax > 0 /\ route \in (Routes \ {"wire"}) \cup {"get"}
   /\ IF LiveC(proof["soa"]) /\ LiveC(proof["nsec"])
        THEN LET ex == Min2(proof["soa"].expires, proof["nsec"].expires)
             IN Synth("denial", route,
@@ -357,7 +378,7 @@ PrefetchComplete(q, raw, aux, d) ==
 (* Cache.Purge: exact entries of the question, covering cuts, the zone's     *)
 (* denial RRsets (its SOA is kept)                                           *)
 Purge(q) ==
-  /\ q \in Keys \cup {"cut", "proof"}
+  /\ q \in Keys \cup {"cut", "proof"} /\ (q \in Keys \/ CutMax > 0)
   /\ ans'   = IF q \in Keys THEN [ans EXCEPT ![q] = NoneE] ELSE ans
   /\ scut'  = IF q = "cut" THEN NoneC ELSE scut
   /\ proof' = IF q = "proof" THEN [proof EXCEPT !["nsec"] = NoneC] ELSE proof
@@ -401,24 +422,33 @@ NextA ==
 
 (* Next-state relation for -simulate: TLC picks uniformly among successor    *)
 (* states, so the parameter product of the write actions would drown the     *)
-(* reads; every write parameter is drawn once per step instead               *)
-One(S) == {RandomElement(S)}
+(* reads.  The S-variants are enabled only now and then (a state-level       *)
+(* random guard, re-drawn for every instance at every step); being named     *)
+(* operators they keep their arguments in the behaviour's action labels.     *)
+Rare(n) == RandomElement({i \in 1..n : now = now}) = 1
+LeaseS(r, d) == Rare(2) /\ Lease(r, d)
+CacheWriteS(r, raw, aux) == Rare(6) /\ CacheWrite(r, raw, aux)
+SubQueryWriteS(q, raw, aux, d) == Rare(40) /\ SubQueryWrite(q, raw, aux, d)
+PrefetchCompleteS(q, raw, aux, d) == Rare(12) /\ PrefetchComplete(q, raw, aux, d)
+CutWriteS(raw, aux, d) == Rare(30) /\ CutWrite(raw, aux, d)
+ProofWriteS(rawS, rawN, d) == Rare(40) /\ ProofWrite(rawS, rawN, d)
+PurgeS(q) == Rare(3) /\ Purge(q)
+TickBigS(d) == Rare(4) /\ TickA(d)          \* a day passes
 NextASim ==
   \/ \E r \in Reqs, q \in Keys, rt \in Routes : HitMsg(r, q, rt) \/ Chase(r, q, rt)
   \/ \E r \in Reqs, q \in Keys : HitWire(r, q) \/ GetEntry(r, q)
   \/ \E r \in Reqs : HitScoped(r) \/ NoAnswer(r)
-  \/ \E r \in Reqs, d \in One(Deltas) : Lease(r, d)
-  \/ \E r \in Reqs, raw \in One(RawTTLs), aux \in One(AuxSet) : CacheWrite(r, raw, aux)
-  \/ \E r \in Reqs, raw \in One(RawTTLs), aux \in One(AuxSet) : CacheWrite(r, raw, aux)
-  \/ \E q \in Keys, raw \in One(RawTTLs), aux \in One(AuxSet), d \in One(Deltas \cup {NoAux}) :
-        SubQueryWrite(q, raw, aux, d) \/ PrefetchComplete(q, raw, aux, d)
-  \/ \E raw \in One(RawTTLs), aux \in One(AuxSet), d \in One(Deltas \cup {NoAux}) : CutWrite(raw, aux, d)
-  \/ \E rs1 \in One(RawTTLs), rn \in One(RawTTLs), d \in One(Deltas \cup {NoAux}) : ProofWrite(rs1, rn, d)
+  \/ \E r \in Reqs, d \in Deltas : LeaseS(r, d)
+  \/ \E r \in Reqs, raw \in RawTTLs, aux \in AuxSet : CacheWriteS(r, raw, aux)
+  \/ \E q \in Keys, raw \in RawTTLs, aux \in AuxSet, d \in Deltas \cup {NoAux} :
+        SubQueryWriteS(q, raw, aux, d) \/ PrefetchCompleteS(q, raw, aux, d)
+  \/ \E raw \in RawTTLs, aux \in AuxSet, d \in Deltas \cup {NoAux} : CutWriteS(raw, aux, d)
+  \/ \E rs1 \in RawTTLs, rn \in RawTTLs, d \in Deltas \cup {NoAux} : ProofWriteS(rs1, rn, d)
   \/ \E rt \in Routes \cup {"get"} : HitCut(rt) \/ HitDenial(rt)
   \/ \E q \in Keys : PrefetchStart(q)
-  \/ \E q \in One(Keys \cup {"cut", "proof"}) : Purge(q)
+  \/ \E q \in Keys \cup {"cut", "proof"} : PurgeS(q)
   \/ \E d \in Ticks : TickA(d)
-  \/ \E d \in One(Ticks) : TickA(d)
+  \/ \E d \in {Cap - 10} : TickBigS(d)
 
 (* ------------------------------ properties ------------------------------ *)
 TypeOKA ==
@@ -666,16 +696,23 @@ NextD ==
   \/ \E z \in Zones : ServeAnswer(z)
   \/ \E d \in Ticks : TickD(d)
 
+ParentWithdrawS(e) == Rare(6) /\ ParentWithdraw(e)
+SelfReferralS(r) == Rare(5) /\ SelfReferral(r)
+TickDS(d) == Rare(3) /\ TickD(d)
+ParentRepointS(e) == Rare(3) /\ ParentRepoint(e)
+ParentRetimeS(e, ns, ds) == Rare(40) /\ ParentRetime(e, ns, ds)
+ServeAnswerS(z) == Rare(2) /\ ServeAnswer(z)
+TickBigDS(d) == Rare(4) /\ TickD(d)         \* half a day passes
 NextDSim ==
-  \/ \E e \in One(Zones) : ParentWithdraw(e) \/ ParentRepoint(e)
-  \/ \E e \in One(Zones), ns \in One(DTTLs), ds \in One(DTTLs \cup {NoDS}) : ParentRetime(e, ns, ds)
+  \/ \E e \in Zones : ParentWithdrawS(e) \/ ParentRepointS(e)
+  \/ \E e \in Zones, ns \in DTTLs, ds \in DTTLs \cup {NoDS} : ParentRetimeS(e, ns, ds)
   \/ \E r \in Res, z \in Zones : SeedFromDelegCache(r, z)
-  \/ \E r \in Res : AskZone(r) \/ DescendCached(r) \/ ProvisionalInsert(r)
-  \/ \E r \in Res : AskZone(r) \/ SelfReferral(r)
+  \/ \E r \in Res : AskZone(r) \/ SelfReferralS(r) \/ DescendCached(r) \/ ProvisionalInsert(r)
   \/ \E r \in Res, how \in {"until", "dur"} : InsertDeleg(r, how)
-  \/ \E r \in Res, t \in One(RawTTLs) : AnswerFromLeaf(r, t)
-  \/ \E z \in One(Zones) : ServeAnswer(z)
-  \/ \E d \in Ticks : TickD(d)
+  \/ \E r \in Res, t \in RawTTLs : AnswerFromLeaf(r, t)
+  \/ \E z \in Zones : ServeAnswerS(z)
+  \/ \E d \in Ticks : TickDS(d)
+  \/ \E d \in {Ceil - 200} : TickBigDS(d)
 
 (* ------------------------------ properties ------------------------------ *)
 TypeOKD ==
